@@ -9,6 +9,7 @@ import (
 	"os"
 	"path/filepath"
 	"runtime/debug"
+	"runtime/pprof"
 	"sort"
 	"strings"
 	"sync"
@@ -418,8 +419,14 @@ func main() {
 	tests := flag.Bool("tests", false, "load test files too")
 	tags := flag.String("tags", "", "build tags")
 	dump := flag.String("dump", "", "write solver transcript of worker 0 here")
+	cpuprof := flag.String("cpuprofile", "", "write a CPU profile here")
 	flag.Parse()
-	debug.SetGCPercent(200)
+	if *cpuprof != "" {
+		pf, _ := os.Create(*cpuprof)
+		pprof.StartCPUProfile(pf)
+		defer pprof.StopCPUProfile()
+	}
+	debug.SetGCPercent(800)
 
 	var jobs []*Job
 	b, err := os.ReadFile(*jobsFile)
